@@ -194,6 +194,12 @@ def run_query(m, q):
         return canon_exc(e)
 
 
+def hash_name(c: str) -> int:
+    import zlib
+
+    return zlib.crc32(c.encode())
+
+
 def run_tc(m, rows):
     """time-course forms on a table of states (index = time)"""
     import pandas as pd
@@ -201,6 +207,9 @@ def run_tc(m, rows):
     out = {}
     idx = [fexpr.to_float(Fraction(t)) for t, _ in rows]
     df = pd.DataFrame([{k: fexpr.to_float(Fraction(v)) for k, v in st} for _, st in rows], index=idx)
+    # column order is not part of the contract: present the columns sorted by a hash of the name
+    cols = sorted(df.columns, key=lambda c: (hash_name(c), c))
+    df = df[cols]
 
     def rows_of(frame):
         return [sorted([k, num(v)] for k, v in frame.loc[i].items()) for i in frame.index]
